@@ -3,7 +3,7 @@
 // (Transition::dispatch_depends). If both are enabled and declared independent, the real kernel operations of the two simcalls are run in both orders on two identical
 // copies of the state: neither may disable the other, and the two final kernel states must be the same.
 // Object identifiers are symbolic (mutexes, condition variables, semaphores and barriers are numbered by separate counters, so ids of different kinds may collide).
-// P_KA, P_KB: simcall kinds of A and B (K_* below) ; P_OA, P_OB: which of the two mutexes each one uses ; P_PRE: what a third actor C did before
+// P_KA, P_KB: simcall kinds of A and B (K_* below) ; P_OA, P_OB: which of the two mutexes each one uses ; P_CA, P_CB: which of the two condition variables ; P_PRE: what a third actor C did before
 // (0 nothing, 1 owns mutex 0, 2 waits on the condition variable with mutex 0, 3 owns mutex 0 and a fourth actor waits on the condition variable) ;
 // P_SIG: C signals the condition variable after A and B prepared ; P_TMO: condition waits are timed ; P_CAP: semaphore capacity ; P_BAR: barrier size ;
 // P_ORD: B prepares before A
@@ -39,6 +39,12 @@ extern "C" int MC_is_active() { return 1; }
 #endif
 #ifndef P_OB
 #define P_OB 0
+#endif
+#ifndef P_CA
+#define P_CA 0 // which of the two condition variables A uses
+#endif
+#ifndef P_CB
+#define P_CB 0
 #endif
 #ifndef P_PRE
 #define P_PRE 0
@@ -81,7 +87,7 @@ std::pair<bool, void*> mc::Channel::receive(size_t size)
 struct World {
   actor::ActorImpl* act[NW];
   activity::MutexImpl* m[2];
-  activity::ConditionVariableImpl* cv;
+  activity::ConditionVariableImpl* cv[2];
   activity::SemaphoreImpl* sem;
   activity::BarrierImpl* bar;
   activity::MutexAcquisitionImplPtr macq[NW];
@@ -92,7 +98,7 @@ struct World {
   int result[NW];
 };
 struct Ids {
-  unsigned m[2], cv, sem, bar;
+  unsigned m[2], cv[2], sem, bar;
 };
 static void own(World& w, int x, int o) // actor x takes mutex o (must be free): lock_async + wait, as Mutex::lock does in MC mode
 {
@@ -103,7 +109,7 @@ static void own(World& w, int x, int o) // actor x takes mutex o (must be free):
 static const T kind2type[] = {T::MUTEX_ASYNC_LOCK,   T::MUTEX_TRYLOCK, T::MUTEX_UNLOCK,   T::MUTEX_WAIT,       T::SEM_ASYNC_LOCK,     T::SEM_UNLOCK,  T::SEM_WAIT,
                               T::CONDVAR_ASYNC_LOCK, T::CONDVAR_WAIT,  T::CONDVAR_SIGNAL, T::CONDVAR_BROADCAST, T::BARRIER_ASYNC_LOCK, T::BARRIER_WAIT};
 // what actor x did before reaching its pending simcall of kind k (real kernel calls), and the real observer of that simcall
-static void prepare(World& w, int x, int k, int o)
+static void prepare(World& w, int x, int k, int o, int c)
 {
   actor::ActorImpl* me = w.act[x];
   const T ty           = kind2type[k];
@@ -131,16 +137,16 @@ static void prepare(World& w, int x, int k, int o)
       break;
     case K_CONDVAR_ASYNC_LOCK:
       own(w, x, o);
-      w.obs[x] = new actor::ConditionVariableObserver(me, ty, w.cv, w.m[o], tmo);
+      w.obs[x] = new actor::ConditionVariableObserver(me, ty, w.cv[c], w.m[o], tmo);
       break;
     case K_CONDVAR_WAIT:
       own(w, x, o);
-      w.cacq[x] = w.cv->acquire_async(me, w.m[o]);
+      w.cacq[x] = w.cv[c]->acquire_async(me, w.m[o]);
       w.obs[x]  = new actor::ConditionVariableObserver(me, ty, w.cacq[x].get(), tmo);
       break;
     case K_CONDVAR_SIGNAL:
     case K_CONDVAR_BROADCAST:
-      w.obs[x] = new actor::ConditionVariableObserver(me, ty, w.cv);
+      w.obs[x] = new actor::ConditionVariableObserver(me, ty, w.cv[c]);
       break;
     case K_BARRIER_ASYNC_LOCK:
       w.obs[x] = new actor::BarrierObserver(me, ty, w.bar);
@@ -153,7 +159,7 @@ static void prepare(World& w, int x, int k, int o)
   me->simcall_.observer_ = w.obs[x];
 }
 // the kernel code of the simcall of kind k (the lambdas of s4u::Mutex, s4u::Semaphore, s4u::ConditionVariable, s4u::Barrier on their MC path)
-static void execute(World& w, int x, int k, int o)
+static void execute(World& w, int x, int k, int o, int c)
 {
   actor::ActorImpl* me = w.act[x];
   switch (k) {
@@ -179,17 +185,17 @@ static void execute(World& w, int x, int k, int o)
       w.sacq[x]->wait_for(me, -1);
       break;
     case K_CONDVAR_ASYNC_LOCK:
-      w.cacq[x] = w.cv->acquire_async(me, w.m[o]);
+      w.cacq[x] = w.cv[c]->acquire_async(me, w.m[o]);
       break;
     case K_CONDVAR_WAIT:
       w.cacq[x]->wait_for(me, P_TMO ? 1.0 : -1.0);
       w.macq[x] = w.cacq[x]->get_mutex()->lock_async(me);
       break;
     case K_CONDVAR_SIGNAL:
-      w.cv->signal();
+      w.cv[c]->signal();
       break;
     case K_CONDVAR_BROADCAST:
-      w.cv->broadcast();
+      w.cv[c]->broadcast();
       break;
     case K_BARRIER_ASYNC_LOCK:
       w.bacq[x] = w.bar->acquire_async(me);
@@ -203,7 +209,8 @@ static void set_ids(World& w, const Ids& ids)
 {
   for (int j = 0; j < 2; j++)
     const_cast<unsigned&>(w.m[j]->id_) = ids.m[j];
-  const_cast<unsigned&>(w.cv->id_)  = ids.cv;
+  for (int j = 0; j < 2; j++)
+    const_cast<unsigned&>(w.cv[j]->id_) = ids.cv[j];
   const_cast<unsigned&>(w.sem->id_) = ids.sem;
   const_cast<unsigned&>(w.bar->id_) = ids.bar;
 }
@@ -216,7 +223,8 @@ static void build(World& w, int base, const Ids& ids)
   }
   for (int j = 0; j < 2; j++)
     w.m[j] = new activity::MutexImpl(false);
-  w.cv  = new activity::ConditionVariableImpl();
+  for (int j = 0; j < 2; j++)
+    w.cv[j] = new activity::ConditionVariableImpl();
   w.sem = new activity::SemaphoreImpl(P_CAP);
   w.bar = new activity::BarrierImpl(P_BAR);
   set_ids(w, ids);
@@ -225,21 +233,22 @@ static void build(World& w, int base, const Ids& ids)
   own(w, 2, 0);
 #elif P_PRE == 2
   own(w, 2, 0);
-  w.cacq[2] = w.cv->acquire_async(w.act[2], w.m[0]);
+  w.cacq[2] = w.cv[0]->acquire_async(w.act[2], w.m[0]);
 #elif P_PRE == 3
   own(w, 3, 0);
-  w.cacq[3] = w.cv->acquire_async(w.act[3], w.m[0]);
+  w.cacq[3] = w.cv[0]->acquire_async(w.act[3], w.m[0]);
   own(w, 2, 0);
 #endif
 #if P_ORD
-  prepare(w, 1, P_KB, P_OB);
-  prepare(w, 0, P_KA, P_OA);
+  prepare(w, 1, P_KB, P_OB, P_CB);
+  prepare(w, 0, P_KA, P_OA, P_CA);
 #else
-  prepare(w, 0, P_KA, P_OA);
-  prepare(w, 1, P_KB, P_OB);
+  prepare(w, 0, P_KA, P_OA, P_CA);
+  prepare(w, 1, P_KB, P_OB, P_CB);
 #endif
 #if P_SIG
-  w.cv->signal();
+  w.cv[0]->signal();
+  w.cv[1]->signal();
 #endif
 }
 static int idx_of(const World& w, const actor::ActorImpl* a)
@@ -265,11 +274,13 @@ static void same_state(World& u, World& v)
     for (size_t i = 0; i < u.sem->ongoing_acquisitions_.size(); i++)
       CHECK(idx_of(u, u.sem->ongoing_acquisitions_[i]->get_issuer()) == idx_of(v, v.sem->ongoing_acquisitions_[i]->get_issuer()),
             "independent transitions commute: same order of the actors queued on the semaphore");
-  CHECK(u.cv->ongoing_acquisitions_.size() == v.cv->ongoing_acquisitions_.size(), "independent transitions commute: same number of actors waiting on the condition variable");
-  if (u.cv->ongoing_acquisitions_.size() == v.cv->ongoing_acquisitions_.size())
-    for (size_t i = 0; i < u.cv->ongoing_acquisitions_.size(); i++)
-      CHECK(idx_of(u, u.cv->ongoing_acquisitions_[i]->get_issuer()) == idx_of(v, v.cv->ongoing_acquisitions_[i]->get_issuer()),
-            "independent transitions commute: same order of the actors waiting on the condition variable");
+  for (int j = 0; j < 2; j++) {
+    CHECK(u.cv[j]->ongoing_acquisitions_.size() == v.cv[j]->ongoing_acquisitions_.size(), "independent transitions commute: same number of actors waiting on the condition variable");
+    if (u.cv[j]->ongoing_acquisitions_.size() == v.cv[j]->ongoing_acquisitions_.size())
+      for (size_t i = 0; i < u.cv[j]->ongoing_acquisitions_.size(); i++)
+        CHECK(idx_of(u, u.cv[j]->ongoing_acquisitions_[i]->get_issuer()) == idx_of(v, v.cv[j]->ongoing_acquisitions_[i]->get_issuer()),
+              "independent transitions commute: same order of the actors waiting on the condition variable");
+  }
   CHECK(u.bar->ongoing_acquisitions_.size() == v.bar->ongoing_acquisitions_.size(), "independent transitions commute: same number of actors waiting on the barrier");
   for (int i = 0; i < NW; i++) {
     CHECK(u.result[i] == v.result[i], "independent transitions commute: same simcall result for the actor");
@@ -300,9 +311,9 @@ extern "C" void harness_commute()
     actors[NW + i]->pid_ = actors[i]->pid_;
   // The kernel only uses the identifiers of its objects to name the acquisitions (strings); the checker only sees them in the encoded simcalls: the state is
   // built and run with fixed identifiers, the symbolic ones are in place while the two pending simcalls are encoded
-  Ids ids, fixed = {{0, 1}, 0, 0, 0};
-  ids.m[0] = nondet_uint(), ids.m[1] = nondet_uint(), ids.cv = nondet_uint(), ids.sem = nondet_uint(), ids.bar = nondet_uint();
-  ASSUME(ids.m[0] != ids.m[1]);
+  Ids ids, fixed = {{0, 1}, {0, 1}, 0, 0};
+  ids.m[0] = nondet_uint(), ids.m[1] = nondet_uint(), ids.cv[0] = nondet_uint(), ids.cv[1] = nondet_uint(), ids.sem = nondet_uint(), ids.bar = nondet_uint();
+  ASSUME(ids.m[0] != ids.m[1] && ids.cv[0] != ids.cv[1]);
   World& u = *new World{}; // (never destroyed: releasing the acquisitions at the end is not part of the check)
   World& v = *new World{};
   build(u, 0, fixed);
@@ -322,13 +333,13 @@ extern "C" void harness_commute()
   CHECK(dep == dep2, "the dependency relation is symmetric");
   if (enA && enB && not dep) {
     // order A;B on the first copy
-    execute(u, 0, P_KA, P_OA);
+    execute(u, 0, P_KA, P_OA, P_CA);
     CHECK(u.obs[1]->is_enabled(), "an independent transition does not disable the other one (A then B)");
-    execute(u, 1, P_KB, P_OB);
+    execute(u, 1, P_KB, P_OB, P_CB);
     // order B;A on the second copy
-    execute(v, 1, P_KB, P_OB);
+    execute(v, 1, P_KB, P_OB, P_CB);
     CHECK(v.obs[0]->is_enabled(), "an independent transition does not disable the other one (B then A)");
-    execute(v, 0, P_KA, P_OA);
+    execute(v, 0, P_KA, P_OA, P_CA);
     same_state(u, v);
   }
   verif_witness();
